@@ -1233,6 +1233,7 @@ func (st *relayState) judgeRequest(op *Op, in *sipwire.Msg, ems []*Emitted, srcP
 		unknown bool // next-hop host not resolvable by the tables: don't-care destination
 		hopHost string
 		hopHosts []string // static class: next-hop host text per admissible entry (parallel to hosts)
+		ambiguousHop bool
 	}
 	var d dest
 	keep := c.keepNextHop()
@@ -1384,12 +1385,21 @@ func (st *relayState) judgeRequest(op *Op, in *sipwire.Msg, ems []*Emitted, srcP
 		}
 	case "static":
 		ok := false
+		var chosen []string
 		for i, h := range d.hosts {
 			if h == eproto+"|"+got {
 				ok = true
 				if i < len(d.hopHosts) {
 					d.hopHost = d.hopHosts[i] // the entry that was actually chosen
+					chosen = append(chosen, d.hopHosts[i])
 				}
+			}
+		}
+		for _, h := range chosen {
+			if h != chosen[0] {
+				// two admissible entries lead to the same address under different host texts
+				// (a name and its address): which one was used cannot be observed
+				d.ambiguousHop = true
 			}
 		}
 		st.judged("C18")
@@ -1457,7 +1467,7 @@ func (st *relayState) judgeRequest(op *Op, in *sipwire.Msg, ems []*Emitted, srcP
 			admissible = append(admissible, learnedAt{listen: op.Listen, transport: "tcp"})
 		}
 	} else {
-		if st.isProxyAddr(d.hopHost) {
+		if st.isProxyAddr(d.hopHost) || d.ambiguousHop {
 			// the proxy's own addresses become "learned" through its own traffic
 			insert = "dontcare"
 		} else if la, ok := prior[d.hopHost]; ok {
